@@ -15,5 +15,6 @@ Extraction "model.ml"
   PolyP.step PolyP.spec_step PolyP.abs PolyP.init PolyP.hs
   RandBytes.randombytes RandBytes.calls
   Prng.run_hist Prng.g0 Prng.g_seedings Salsa.stream
+  PrngConc.init PrngConc.run PrngConc.thr PrngConc.outs PrngConc.seeds PrngConc.log
   Params.rows16 Params.rows32 Params.rows64 Shards.K16 Shards.K32 Shards.K64
   Z.modulo Z.div Z.mul Z.add Z.sub Z.pow.
